@@ -21,7 +21,7 @@ func HarnessC07Concurrent() {
 	g.AddTriples(ctx, pool[:1])
 	sc := verif.Param("SCENARIO", -1)
 	if sc < 0 {
-		sc = verif.Choice("scenario", 6)
+		sc = verif.Choice("scenario", 8)
 	}
 	var wg sync.WaitGroup
 	run := func(fs ...func()) {
@@ -96,6 +96,51 @@ func HarnessC07Concurrent() {
 		verif.Reach("done")
 		verif.Assert(e1 == nil && e2 == nil, "C07/shared-options/lookups-succeed")
 		verif.Assert(lo.FilterOptions == nil && lo.LatestAnchor, "C07/shared-options/not-modified")
+	case 6, 7: // any read method against a writer: the twelve reads of the driver, one at a time
+		mk := func(s, p, o byte) *spec {
+			sp := &spec{sb: s, pb: p, ob: o}
+			sp.t = sp.build()
+			return sp
+		}
+		stable, b1, b2 := mk('a', 'p', 'x'), mk('a', 'p', 'y'), mk('a', 'p', 'z')
+		all := []*spec{stable, b1, b2}
+		g2, err := st.NewGraph(ctx, "?rw")
+		verif.Assume(err == nil)
+		g2.AddTriples(ctx, triples(all[:1]))
+		m := verif.Choice("method", 12)
+		var res []*spec
+		var ex, foreign bool
+		var rerr, werr error
+		write := func() { werr = g2.AddTriples(ctx, triples(all[1:])) }
+		if sc == 7 {
+			write = func() { werr = g2.RemoveTriples(ctx, triples(all[:1])) }
+		}
+		run(write, func() { res, ex, rerr, foreign = c19ReadAll(g2, m, stable, storage.DefaultLookup, all) })
+		verif.Reach("done")
+		verif.Assert(rerr == nil && werr == nil && !foreign, "C07/read-against-writer/succeeds")
+		n1, n2, n0 := 0, 0, 0
+		for _, x := range res {
+			switch x {
+			case stable:
+				n0++
+			case b1:
+				n1++
+			case b2:
+				n2++
+			}
+		}
+		verif.Assert(n0 <= 1 && n1 <= 1 && n2 <= 1, "C07/read-against-writer/no-duplicates")
+		if sc == 6 {
+			// the lookups that fix nothing the batch elements differ in see the batch all-or-nothing
+			if m == 0 || m == 2 || m == 5 || m == 6 || m == 8 || m == 10 {
+				verif.Assert(n1 == n2, "C07/batch-add-is-atomic-for-lookups")
+			}
+			if m == 11 {
+				verif.Assert(ex, "C07/lookup-sees-earlier-writes")
+			} else {
+				verif.Assert(n0 == 1, "C07/lookup-sees-earlier-writes")
+			}
+		}
 	default: // two lookups sharing default options: closes once, no interference
 		var a, b []*triple.Triple
 		run(func() { a, _ = list(storage.DefaultLookup) }, func() { b, _ = list(storage.DefaultLookup) })
